@@ -14,7 +14,7 @@ import universe
 import world
 
 INFO = {
-    'proof_files': ['Proofs/TotalityProofs.v', 'Proofs/EofCloses.v'],
+    'proof_files': ['Proofs/TotalityProofs.v', 'Proofs/EofCloses.v', 'Proofs/NoRaiseA.v', 'Proofs/NoRaiseB.v'],
     'assumptions': [
         'PARTIAL: the theorem side covers the exception sources the model contains (matcher.parse raises nothing but RuntimeError; the log pipeline handles every exception of decoding/resolving; every connection opened by the log backend is closed at end of input); an exception source that is not in the model is not covered by it',
         'that gap is what the malformed-stream exploration looks for: arbitrary bytes (mutated valid logs, truncation, undecodable bytes, huge numbers, id 0, lone ESC) through the same open()/into_sink path main.py uses and through main.py as a process in file, pipe and run mode; arbitrary matcher text (grammar, mutations, arbitrary Unicode) parsed, simplified, evaluated on a message universe and printed; arbitrary printable command lines against random session states',
@@ -34,11 +34,13 @@ def garbage_log(rnd):
         elif r < 0.4:
             t = t.replace('1', '1' * 400, 1)
         elif r < 0.45:
-            t = t.replace('@', '@0', 1).replace('#', '#0', 1)
+            import re as _re
+            # an object id that IS zero (target, object argument or new id), not merely a leading zero
+            t = _re.sub(r'([@#])\d+', lambda m: m.group(1) + rnd.choice(['0', '00', '0']), t, count=rnd.choice([1, 1, 2, 5]))
         elif r < 0.5:
             t = rnd.choice(['[1.0] wl_display@1.delete_id("x")', '[1.0] wl_display@1.delete_id(0)', '[1.0] wl_registry@2.bind(1)', '[1.0] a@1.b(1e999, "x", 1)',
                             '[1.0] wl_registry@2.bind(1, "x", 1, new id wl_y@3)', '[1.0] wl_surface@3.no_such_message(1)', '[1.0] wl_display@1.sync(1, 2, 3, 4)',
-                            '[1.0] x@99999999999999999999.y()', '[99999999999999999999999.0] x@1.y()', '\x1b[31m', '\x1b', '[1.0] x@1.set_app_id()', '[1.0] x@1.set_title(5)'])
+                            '[1.0] x@99999999999999999999.y()', '[1.0] wl_surface@0.commit()', '[1.0] a@3.attach(wl_buffer@0, 0, 0)', '[1.0] a@3.b(new id wl_callback@0)', '[1.0] a@3.b(nil@0)', '%%%[[[ 7,5 ] {q} <c> x#0.y(]]])', '[99999999999999999999999.0] x@1.y()', '\x1b[31m', '\x1b', '[1.0] x@1.set_app_id()', '[1.0] x@1.set_title(5)'])
         lines.append(t)
     data = '\n'.join(lines).encode('utf-8', 'surrogatepass' if False else 'replace')
     r = rnd.random()
